@@ -2,7 +2,8 @@
    Model: Resp/Handler.v (Command::try_from, the three commands, the per-connection loop) over
    Resp/Conn.v (read_frame over arbitrary socket reads) and a key-value map; C01 proves the storage
    engine to be that map. *)
-From BC Require Import Resp.Frame Resp.Conn Resp.Handler Resp.HandlerProofs Resp.Prefix Resp.Stream Resp.Client Resp.ClientProofs.
+From BC Require Import Resp.Frame Resp.Conn Resp.Handler Resp.HandlerProofs Resp.Prefix Resp.Stream Resp.Client Resp.ClientProofs Resp.OverEngine.
+From BC Require Store.Engine Store.Inv.
 Open Scope Z_scope.
 
 (* 1. For any stream of well-formed requests, cut into socket reads in ANY way (whole, one byte at a
@@ -58,6 +59,18 @@ Theorem C06_client_truncated : forall b rs r segs m part e, kv_small m -> Forall
   client_session (rs ++ [r]) (read_all (fixed b) segs []) = spec_results m rs ++ [CReset].
 Proof. exact client_truncated. Qed.
 Print Assumptions C06_client_truncated.
+
+(* 3e. ... over the storage ENGINE instead of a map (Resp/OverEngine.v: the same loop issuing one get / set per
+       command and one delete per key of a DEL to the engine model of Store/Engine.v, started on an empty
+       directory, any configuration): the bytes written are still the map's replies in order, the connection ends
+       cleanly, and the engine ends in a state that satisfies its invariant and denotes the map the requests
+       produce — what is then on disk is C01's and C03's subject. *)
+Theorem C06_over_engine : forall c rs es segs, Forall (fun r => wf_req r = true) rs ->
+  Forall2 (fun r e => enc (frame_of_req r) = Ok e) rs es -> concat segs = concat es ->
+  let '(out, s', t) := handle_e c Store.Engine.init (read_all (fixed Release) segs []) [] in
+  out = fst (spec_out [] rs) /\ t = TClosed /\ denotes s' (snd (spec_out [] rs)).
+Proof. exact handler_over_engine. Qed.
+Print Assumptions C06_over_engine.
 
 (* 4. DEL counts keys as they are deleted in turn: a key named twice counts once. *)
 Example C06_del_counts_in_turn :
